@@ -110,6 +110,13 @@ func (s classSvc) Classify(env envs.Environment, input string, logHTTP flows.HTT
 	if strings.Contains(input, "fail") {
 		return nil, fmt.Errorf("classifier unavailable")
 	}
+	logHTTP(&flows.HTTPLog{
+		HTTPLogWithoutTime: &flows.HTTPLogWithoutTime{
+			LogWithoutTime: &httpx.LogWithoutTime{URL: "http://nlu.example.com/classify", StatusCode: 200, Request: "GET /classify HTTP/1.1\r\n\r\n", Response: "HTTP/1.0 200 OK\r\n\r\n{}", ElapsedMS: 1},
+			Status:         flows.CallStatusSuccess,
+		},
+		CreatedOn: ClockStart,
+	})
 	intents := []flows.ExtractedIntent{}
 	conf := decimal.RequireFromString("0.9")
 	for _, in := range s.c.Intents() {
